@@ -132,6 +132,7 @@ class World {
 
   // white-box accessors for additional invariants
   std::vector<int> queue_order(const std::string &name);   // client indices queued for a name, head first
+  std::string bus_side_name(int client);                    // unique name the bus holds for that client's connection ("" if none)
   int n_active();
   int n_incomplete();
 
